@@ -10,20 +10,38 @@ from vf.core import Suite, coq_list, coq_Z
 from vf.gen import pick_weighted
 
 ID = "C04"
-THEOREMS = ["C04_decode_git", "C04_git_decode", "C04_canon_is_git", "C04_decode_long_mode_refuted", "C04_enc_dec", "C04_written_clean_partial",
-            "C04_written_clean_refuted", "C04_written_gitmodules_refuted", "C04_sort_is_git_order", "C04_never_refuses", "C04_never_refuses_refuted"]
+THEOREMS = ["C04_decode_git", "C04_git_decode", "C04_git_decode_exact", "C04_canon_is_git", "C04_decode_long_mode_refuted", "C04_enc_dec",
+            "C04_hfs_dot_eq_git", "C04_wf_utf8_guard", "C04_hfs_dot_sound", "C04_hfs_dot_malformed_refuted", "C04_ntfs_dotgit_eq_git", "C04_ntfs_dot_eq_git",
+            "C04_has_dotgit_refused", "C04_dotgitmodules_eq", "C04_dotgitmodules_symlink",
+            "C04_written_clean_structural", "C04_written_clean_partial", "C04_written_clean_refuted",
+            "C04_written_gitmodules_malformed_refuted", "C04_written_gitmodules_refuted",
+            "C04_sort_is_git_order", "C04_never_refuses", "C04_never_refuses_refuted"]
 MODEL_FILES = ["TreeObj.v"]
 MODELLED = ("plumbing/object/tree.go: Tree.Decode (filemode.FromBytes, canonicalTreeMode), Tree.Encode, Tree.Validate, "
             "treeEntrySortName / TreeEntrySorter; internal/pathutil: ValidTreePath, IsDotGitName, IsHFSDot (UTF-8 view of "
             "[]rune), IsNTFSDotGit, IsNTFSDot with the four dot-file names (Model/TreeObj.v; canonicalTreeMode, "
             "isValidTreeMode, asciiToLower, the filemode constants and maxTreeEntryNameLen are regenerated into Gen/C04.v); "
-            "spec: git's decode_tree_entry / canon_mode (ls-tree) and fsck_tree with verify_ordered, the d/f name stack, "
-            "is_hfs_dotgit (pick_one_utf8_char), is_ntfs_dotgit (Spec/GitTree.v); not modelled: bufio buffering of the "
-            "decoder, object storage, SHA-256 object ids (20-byte ids throughout), filepath.VolumeName (always \"\" on unix)")
+            "spec (Spec/GitTree.v, shares no detector code with the model): git's decode_tree_entry / canon_mode (ls-tree), "
+            "fsck_tree with verify_ordered and the d/f name stack, utf8.c pick_one_utf8_char (code points decoded) / next_hfs_char "
+            "(its own list of 16 ignored code points) / is_hfs_dot_generic, path.c is_ntfs_dotgit and is_ntfs_dot_generic "
+            "(index-wise over a NUL-terminated string: strncasecmp, only_spaces_and_periods, the fall-back short-name loop); "
+            "PROVED: IsHFSDot = is_hfs_dot_generic for every needle on byte strings that are well-formed UTF-8 (git's notion) "
+            "whenever they start like a dot-file, IsNTFSDotGit = is_ntfs_dotgit on a path component, IsNTFSDot = "
+            "is_ntfs_dot_generic for needle pairs of git's shape, ValidTreePath accepted => no hasDotgit, git's .gitmodules verdict "
+            "= Validate's two tests + the backslash-suffix test it lacks, written trees fsck-clean under name_guard, the 7-digit "
+            "mode limit is the only difference between the readers; only exercised (impl = model on every run): the hand-written "
+            "models of the pathutil detectors themselves (incl. []rune decoding and strings.ToLower / EqualFold on non-ASCII); "
+            "not modelled: bufio buffering of the decoder, object storage, SHA-256 object ids (20-byte ids throughout), "
+            "filepath.VolumeName (always \"\" on unix)")
+LEVEL_NOTE = ("the detector equivalences carry the boolean guards is_bytes (all values < 256), utf8_guard (= wf_utf8 || the first "
+              "non-ignored character is not '.'), NUL-free and '/'-free names; the full statement without utf8_guard is false "
+              "(C04_hfs_dot_malformed_refuted, known finding hfs-dotgit-malformed-tail); C04_written_clean_partial = fsck reports "
+              "nothing under name_guard, C04_written_clean_structural = no structural message with no guard at all")
 TRUSTED = [
     "C-impl: Tree.Decode / Tree.Encode / Tree.Validate (harness/cmd/c04) vs Model/TreeObj.v on every case",
     "C-git: Spec/GitTree.git_ls_tree vs `git ls-tree -z` and git_fsck_tree vs the error lines of `git fsck --strict` "
-    "on every tree of the run (trees written with the loose-object encoding, as hash-object --literally would)",
+    "on the trees of the run (quick tier: every tree of the HFS+/NTFS disguise buckets and the grid, a spread sample of the "
+    "rest; thorough tier: all) — trees written with the loose-object encoding, as hash-object --literally would",
 ]
 ASSUMPTIONS = [
     "git reads and checks trees as transcribed in Spec/GitTree.v (validated against git 2.39.5 on each run)",
@@ -33,7 +51,13 @@ ASSUMPTIONS = [
 RULE = ("case = raw tree bytes to decode (valid, unsorted, duplicates, zero-padded / garbage / over-long modes, odd names, "
         "truncations, random) or an entry set to validate and encode (valid sets, .git disguises for HFS+/NTFS incl. malformed "
         "UTF-8, control / separator bytes, dot-file symlinks, mode grid, duplicates, unsorted, null ids, names of 4095..4097 "
-        "bytes); non-trivial = more than one entry or an odd name / mode; distinct by content")
+        "bytes; generated disguises: dot-file names with HFS+-ignorable code points, their neighbours, well-formed 2/3/4-byte "
+        "and malformed sequences (truncated, overlong, surrogate, U+FFFE/FFFF, > U+10FFFF, stray continuation) at the head / "
+        "inside / at the tail; NTFS short names git~N, gitmod~N, gi7eba~N... with tilde positions 0..7, digit and case "
+        "mutations, tails of spaces / periods / colon, backslash-separated prefixes and suffixes; regular, symlink, dir and "
+        "gitlink modes; plus a fixed grid replayed on every run: each of the 16 ignored code points inside .git, one per range "
+        "inside a .gitmodules symlink, the neighbours of the ranges, the short-name digit and tail boundaries); "
+        "non-trivial = more than one entry or an odd name / mode; distinct by content")
 
 GITENV = {"GIT_CONFIG_NOSYSTEM": "1", "GIT_CONFIG_GLOBAL": "/dev/null", "LC_ALL": "C", "TZ": "UTC",
           "PATH": os.environ.get("PATH", "/usr/bin:/bin")}
@@ -98,6 +122,196 @@ MODE_TEXTS = [b"100644", b"100755", b"120000", b"40000", b"160000", b"040000", b
 LONG_MODE = b"0" * 5000 + b"100644"                  # longer than the decoder's read buffer (thorough tier)
 
 
+# ---- HFS+ / NTFS disguise generators (the detectors proved equal to git's in Proofs/C04{Hfs,Ntfs,Dot}.v)
+def u8(cp):
+    return chr(cp).encode("utf-8", "surrogatepass")
+
+
+IGN_CP = [0x200c, 0x200d, 0x200e, 0x200f, 0x202a, 0x202b, 0x202c, 0x202d, 0x202e, 0x206a, 0x206b, 0x206c, 0x206d, 0x206e, 0x206f, 0xfeff]
+NEAR_CP = [0x200b, 0x2010, 0x2029, 0x202f, 0x2069, 0x2070, 0xfefe, 0xff00, 0x2000, 0x20aa, 0x2060, 0x1200c, 0x20c]   # just outside the ignored ranges
+IGN = [u8(c) for c in IGN_CP]
+NEAR = [u8(c) for c in NEAR_CP]
+WF = [b"\xc2\x80", b"\xdf\xbf", b"\xc3\xa9", b"\xe0\xa0\x80", b"\xed\x9f\xbf", b"\xee\x80\x80", b"\xef\xbf\xbd", b"\xef\xbb\xbe",
+      b"\xf0\x90\x80\x80", b"\xf4\x8f\xbf\xbf", b"\xf0\x9f\x98\x80", b"\xe2\x80\x8b", b"\xe2\x84\xaa", b"\xc5\xbf"]
+MALFORMED = [b"\xe2\x80", b"\xe2", b"\xf0\x9f\x98", b"\xc3", b"\xf0\x9f", b"\xef\xbb",                # truncated
+             b"\xc0\xae", b"\xc1\xbf", b"\xe0\x80\xae", b"\xe0\x9f\xbf", b"\xf0\x80\x80\xae", b"\xf0\x8f\xbf\xbf",   # overlong
+             b"\xed\xa0\x80", b"\xed\xbf\xbf",                                                       # surrogates
+             b"\xef\xbf\xbe", b"\xef\xbf\xbf",                                                       # U+FFFE, U+FFFF
+             b"\xf4\x90\x80\x80", b"\xf5\x80\x80\x80", b"\xf7\xbf\xbf\xbf", b"\xf8\x88\x80\x80\x80",       # > U+10FFFF
+             b"\x80", b"\xbf", b"\xff", b"\xfe", b"\xe2\x41\x8c", b"\xe2\x80\x41", b"\xe2\x80\xcc"]       # stray / broken continuation
+HFS_BASES = [b".git", b".git", b".gitmodules", b".gitmodules", b".gitignore", b".gitattributes", b".mailmap", b".gitx", b".gi", b"git", b".gitmodule"]
+NTFS_TAILS = [b"", b"", b" ", b".", b" .", b". . ", b"...", b":", b":stream", b" :x", b".:", b"x", b".x", b" x", b"\\", b"\\x", b" \\x", b"1", b"~", b"\xc2\xa0"]
+NTFS_STEMS = [b"gitmod", b"gitmod", b"gi7eba", b"gi7eba", b"gi7d29", b"gi250a", b"maba30", b"gitign", b"gitatt", b"mailma", b"git", b"gi7ebx", b"xi7eba", b"gi7eb\xe1"]
+DISGUISE_MODES = [0o100644, 0o120000, 0o120000, 0o100755, 0o40000, 0o160000]
+
+
+def flip_case(rng, b):
+    k = rng.randrange(4)
+    if k == 0:
+        return b.upper()
+    if k == 1:
+        return bytes((c ^ 0x20) if (65 <= (c & ~0x20) <= 90 and rng.random() < 0.4) else c for c in b)
+    return b
+
+
+def sep_wrap(rng, n):
+    k = rng.randrange(10)
+    if k == 0:
+        return rng.choice([b"x\\", b"\\", b"a\\b\\", b"x\\\\"]) + n
+    if k == 1:
+        return n + rng.choice([b"\\x", b"\\", b"\\.git", b"\\ "])
+    return n
+
+
+def gen_hfs_name(rng):
+    """a dot-file name with ignorable / other well-formed / malformed sequences at the head, inside, at the tail"""
+    base = flip_case(rng, rng.choice(HFS_BASES))
+    parts = [bytes([c]) for c in base]
+    for _ in range(rng.choice([0, 1, 1, 1, 2, 2, 3])):
+        pool = pick_weighted(rng, [(6, IGN), (1, NEAR), (1, WF), (2, MALFORMED)])
+        where = rng.choice(["head", "mid", "mid", "tail", "tail"])
+        pos = 0 if where == "head" else len(parts) if where == "tail" else rng.randrange(1, max(2, len(parts)))
+        parts.insert(pos, rng.choice(pool))
+    n = b"".join(parts) + rng.choice([b"", b"", b"", b"", b" ", b".", b":x", b"x", b"\xe2\x80\x8c"])
+    return sep_wrap(rng, n)
+
+
+def gen_ntfs_name(rng):
+    """.git / git~1 / dot-file names and their 8.3 short names, with NTFS tails"""
+    k = rng.randrange(10)
+    if k < 3:
+        n = flip_case(rng, rng.choice([b".git", b"git~1", b".gitmodules", b".gitignore", b".gitattributes", b".mailmap", b"git~2", b".gitmodule", b".gitmodulesx"]))
+    elif k < 5:
+        n = flip_case(rng, rng.choice(NTFS_STEMS[:10])[:6]) + b"~" + rng.choice(b"1234123456789005").to_bytes(1, "big")
+    else:
+        stem = flip_case(rng, rng.choice(NTFS_STEMS))
+        cut = rng.choice([6, 6, 5, 5, 4, 3, 2, 1, 0, 7])
+        stem = (stem + b"x")[:cut]
+        ndig = max(1, rng.choice([8, 8, 8, 7, 9]) - cut - 1)
+        digs = bytes(rng.choice(b"123456789") for _ in range(1)) + bytes(rng.choice(b"0123456789") for _ in range(ndig - 1))
+        if rng.random() < 0.15:
+            i = rng.randrange(len(digs))
+            digs = digs[:i] + rng.choice([b"0", b"~", b"x", b":", b" ", b"\xb1"]) + digs[i + 1:]
+        n = stem + b"~" + digs
+    if rng.random() < 0.2 and n:                      # one-byte mutation
+        i = rng.randrange(len(n))
+        n = n[:i] + rng.choice([bytes([n[i] | 0x80]), b"~", b"1", b"", b"~~", bytes([n[i] ^ 0x20]), b".", b"\xc4\xb0"]) + n[i + 1:]
+    return sep_wrap(rng, n + rng.choice(NTFS_TAILS))
+
+
+def grid_cases():
+    """boundary names replayed on every run: every ignored code point inside .git, one per ignored range inside a
+    .gitmodules symlink, the neighbours of the ranges, the NTFS short-name digits and the tail terminators"""
+    out = []
+
+    def one(mode, name, note):
+        out.append({"op": "enc", "bucket": "enc-grid", "note": note, "sort": True,
+                    "entries": [{"mode": mode, "name": name.hex(), "hash": BLOB}]})
+    for cp in IGN_CP:
+        one(0o100644, b".g" + u8(cp) + b"it", "ignored U+%04X inside .git" % cp)
+    for cp in [0x200c, 0x202e, 0x206a, 0xfeff]:
+        one(0o120000, b".gitmod" + u8(cp) + b"ules", "ignored U+%04X inside a .gitmodules symlink" % cp)
+    out.append({"op": "enc", "bucket": "enc-grid", "note": "neighbours of the ignored ranges", "sort": True,
+                "entries": [{"mode": 0o100644, "name": (b".g" + u8(cp) + b"it").hex(), "hash": BLOB} for cp in NEAR_CP]})
+    for nm in [b"gitmod~1", b"GITMOD~4", b"gitmod~5", b"gitmod~0", b"gi7eba~1", b"gi7eba~9", b"gi7eba~0", b"gi7eb~10", b"gi~12345", b"~1234567",
+               b"gitmod~1:", b"gitmod~1 .", b"gitmod~1x", b".gitmodules:x", b".gitmodules .", b"gi7eba~1:x"]:
+        one(0o120000, nm, "NTFS short name / tail")
+    for nm in [b".git:x", b"git~1:", b".git. .", b"git~1 x", b"git~2"]:
+        one(0o100644, nm, "NTFS .git tail")
+    return out
+
+
+# ---- narrow classification helpers (python views of git's tests, used only to key the known-finding classes)
+def git_wf_utf8(b):
+    """pick_one_utf8_char never reports an invalid sequence"""
+    i, n = 0, len(b)
+    while i < n:
+        a = b[i]
+        c = lambda k: i + k < n and (b[i + k] & 0xc0) == 0x80
+        if a < 0x80:
+            i += 1
+        elif (a & 0xe0) == 0xc0:
+            if not c(1) or (a & 0xfe) == 0xc0:
+                return False
+            i += 2
+        elif (a & 0xf0) == 0xe0:
+            if not (c(1) and c(2)) or (a == 0xe0 and (b[i + 1] & 0xe0) == 0x80) or (a == 0xed and (b[i + 1] & 0xe0) == 0xa0) or \
+                    (a == 0xef and b[i + 1] == 0xbf and (b[i + 2] & 0xfe) == 0xbe):
+                return False
+            i += 3
+        elif (a & 0xf8) == 0xf0:
+            if not (c(1) and c(2) and c(3)) or (a == 0xf0 and (b[i + 1] & 0xf0) == 0x80) or (a == 0xf4 and b[i + 1] > 0x8f) or a > 0xf4:
+                return False
+            i += 4
+        else:
+            return False
+    return True
+
+
+def strip_ign(b):
+    for seq in IGN:
+        b = b.replace(seq, b"")
+    return b
+
+
+def _at(s, i):
+    return s[i] if i < len(s) else 0
+
+
+def git_ntfs_dot(name, dotgit=b"gitmodules", short=b"gi7eba"):
+    """path.c is_ntfs_dot_generic"""
+    low = lambda c: c + 32 if 65 <= c <= 90 else c
+
+    def tail(i):
+        while True:
+            c = _at(name, i)
+            i += 1
+            if c == 0 or c == 58:
+                return True
+            if c != 32 and c != 46:
+                return False
+
+    def ncase(n, ia):
+        for k in range(n):
+            x, y = low(_at(name, ia + k)), low(_at(dotgit, k))
+            if x != y:
+                return False
+            if x == 0:
+                return True
+        return True
+    if _at(name, 0) == 46 and ncase(len(dotgit), 1):
+        return tail(len(dotgit) + 1)
+    if ncase(6, 0) and _at(name, 6) == 126 and 49 <= _at(name, 7) <= 52:
+        return tail(8)
+    i, saw = 0, False
+    while i < 8:
+        c = _at(name, i)
+        if c == 0:
+            return False
+        if saw:
+            if c < 48 or c > 57:
+                return False
+        elif c == 126:
+            i += 1
+            if not 49 <= _at(name, i) <= 57:
+                return False
+            saw = True
+        elif i >= 6 or c & 0x80 or low(c) != _at(short, i):
+            return False
+        i += 1
+    return tail(i)
+
+
+def dotfile_variant(n):
+    """an HFS+ / NTFS variant (in git's sense) of .gitattributes, .gitignore or .mailmap"""
+    return any(git_ntfs_dot(n, d, sh) or strip_ign(n).lower() == b"." + d
+               for d, sh in ((b"gitattributes", b"gi7d29"), (b"gitignore", b"gi250a"), (b"mailmap", b"maba30")))
+
+
+def gitmodules_after_backslash(n):
+    return any(ch == 92 and git_ntfs_dot(n[k + 1:]) for k, ch in enumerate(n))
+
+
 def long_name(n):
     return (b"n" * n)
 
@@ -148,7 +362,11 @@ def gen_dec(rng, bucket, tier="quick"):
             es.append(enc_entry(rng.choice(MODE_TEXTS + ([LONG_MODE] if tier == "thorough" else [])), b"%c%d" % (97 + k, k), BLOB))
         raw = b"".join(es)
     elif bucket == "dec-names":
-        raw = b"".join(enc_entry(b"100644", rng.choice(DISGUISE + DOTFILES + ODD + [long_name(4096), long_name(4097), long_name(5000)]),
+        def nm():
+            k = rng.randrange(4)
+            n = gen_hfs_name(rng) if k == 0 else gen_ntfs_name(rng) if k == 1 else b""
+            return n if n and b"\0" not in n else rng.choice(DISGUISE + DOTFILES + ODD + [long_name(4096), long_name(4097), long_name(5000)])
+        raw = b"".join(enc_entry(rng.choice([b"100644", b"100644", b"120000"]), nm(),
                                  rng.choice([BLOB, BLOB, ZERO, rnd_hash(rng)])) for _ in range(rng.randrange(1, 4)))
     elif bucket == "dec-truncated":
         es = sorted(rnd_entries(rng, rng.randrange(1, 4), PLAIN), key=git_key)
@@ -177,6 +395,13 @@ def gen_enc(rng, bucket):
         for _ in range(rng.choice([1, 1, 2])):
             m = rng.choice(MODES_OK)
             es.append({"mode": m, "name": rng.choice(pool).hex(), "hash": hash_for(rng, m)})
+    elif bucket in ("enc-hfs", "enc-ntfs"):
+        es = es[:2]
+        nm = b""
+        while not nm:
+            nm = gen_hfs_name(rng) if bucket == "enc-hfs" else gen_ntfs_name(rng)
+        m = rng.choice(DISGUISE_MODES)
+        es.append({"mode": m, "name": nm.hex(), "hash": hash_for(rng, m)})
     elif bucket == "enc-symlink-dotfiles":
         es.append({"mode": rng.choice([0o120000, 0o120000, 0o100644]), "name": rng.choice(DOTFILES).hex(), "hash": BLOB})
     elif bucket == "enc-modes":
@@ -251,9 +476,9 @@ class Main(Suite):
 
     def gen(self, rng, n, tier):
         buckets = [(3, "dec-valid"), (2, "dec-unsorted"), (2, "dec-dups"), (4, "dec-modes"), (3, "dec-names"), (4, "dec-truncated"), (1, "dec-random"),
-                   (3, "enc-valid"), (4, "enc-prefix"), (6, "enc-names"), (3, "enc-symlink-dotfiles"), (3, "enc-modes"), (2, "enc-dups"), (3, "enc-unsorted"),
-                   (1, "enc-null"), (1, "enc-long")]
-        out = []
+                   (3, "enc-valid"), (4, "enc-prefix"), (5, "enc-names"), (3, "enc-symlink-dotfiles"), (3, "enc-modes"), (2, "enc-dups"), (3, "enc-unsorted"),
+                   (1, "enc-null"), (1, "enc-long"), (7, "enc-hfs"), (7, "enc-ntfs")]
+        out = grid_cases()
         for _ in range(n):
             b = pick_weighted(rng, buckets)
             out.append(gen_dec(rng, b, tier) if b.startswith("dec") else gen_enc(rng, b))
@@ -356,11 +581,15 @@ class Main(Suite):
             return None
         names = [bytes.fromhex(x["name"]) for x in c["entries"]]
         if "rejects" in reason:
-            if ("['hasDotgit']" in reason or "['gitmodulesSymlink']" in reason) and \
-                    any(any(ch >= 0x80 for ch in n) and n[:1] == b"." and b"\\" not in n for n in names):
-                return "hfs-dotgit-malformed-tail"
-            if "['gitmodulesSymlink']" in reason and any(x["mode"] == 0o120000 and b"\\" in bytes.fromhex(x["name"]) for x in c["entries"]):
+            if "['gitmodulesSymlink']" in reason and \
+                    any(x["mode"] == 0o120000 and gitmodules_after_backslash(bytes.fromhex(x["name"])) for x in c["entries"]):
                 return "gitmodules-symlink-after-backslash"
+            # .git / .gitmodules (HFS+-ignorable code points skipped, any case), then a sequence git calls malformed
+            if "['hasDotgit']" in reason and any(not git_wf_utf8(n) and strip_ign(n).lower().startswith(b".git") for n in names):
+                return "hfs-dotgit-malformed-tail"
+            if "['gitmodulesSymlink']" in reason and any(x["mode"] == 0o120000 and not git_wf_utf8(bytes.fromhex(x["name"])) and
+                                                         strip_ign(bytes.fromhex(x["name"])).lower().startswith(b".gitmodules") for x in c["entries"]):
+                return "hfs-dotgit-malformed-tail"
             return None
         if "refuses" in reason:
             if any(any(ch < 0x20 or ch == 0x7f for ch in n) for n in names):
@@ -371,7 +600,7 @@ class Main(Suite):
                 return "name-over-4096"
             if any(b"\xc4\xb0" in n for n in names):
                 return "dotgit-u0130-fold"
-            if any(x["mode"] == 0o120000 for x in c["entries"]):
+            if any(x["mode"] == 0o120000 and dotfile_variant(bytes.fromhex(x["name"])) for x in c["entries"]):
                 return "dotfile-symlink"
         return None
 
@@ -384,7 +613,13 @@ class Main(Suite):
                 uniq[oid] = (raw, ls, errs)
         oids = sorted(uniq)
         if ctx.tier == "quick":
-            oids = oids[::max(1, len(oids) // 100)]       # a spread sample; the thorough tier takes every tree
+            # every tree of the HFS+/NTFS disguise buckets (the transcriptions of is_hfs_dot_generic, is_ntfs_dotgit and
+            # is_ntfs_dot_generic) and a spread sample of the rest; the thorough tier takes every tree
+            byid = {c["id"]: c for c in cases}
+            focus = sorted({oid for (i, _k), (oid, raw, _l, _e) in git.items()
+                            if byid[i]["bucket"] in ("enc-hfs", "enc-ntfs", "enc-grid") and oid in uniq})
+            rest = [o for o in oids if o not in set(focus)]
+            oids = sorted(set(focus[:170] + rest[::max(1, len(rest) // 70)]))
         ls_out = ctx.coq_eval(self.coq_imports, ['c04_git_ls 20 "%s"' % uniq[o][0].hex() for o in oids], chunk=self.coq_chunk)
         fs_out = ctx.coq_eval(self.coq_imports, ['c04_git_fsck 20 "%s"' % uniq[o][0].hex() for o in oids], chunk=self.coq_chunk)
         bad = 0
